@@ -362,6 +362,7 @@ def run(ctx):
         terms.append(("attri", "(map (fun n => %s (attr_parse_int n)) [%s], gen_attr_path_passthrough, map (fun n => %s (parse_level [48 + n])) [1; 2; 3; 4; 5])"
                       % (enc_l, "; ".join(str(n) for n in aints), enc_l)))
         hint = lambda h: "None" if h == 9 else ("(Some None)" if h == 0 else "(Some (Some %s))" % LV[h - 1])
+        terms.append(("initial", "%s current_initial" % enc_ol))
         terms.append(("pub", "map (fun hs => %s (published hs)) [%s]" % (enc_ol, "; ".join("[" + "; ".join(hint(h) for h in hs) + "]" for hs in pub_lists))))
         res = coq_eval(ctx, "From TV Require Import Levels.Model.\nLocal Open Scope N_scope.\nLocal Open Scope string_scope.", terms)
         model = {"ops": {}, "parse": {}, "attr_str": {}, "attr_int": {}, "pub": {}}
@@ -370,6 +371,7 @@ def run(ctx):
                 model["attr_str"][x] = r if r != 99 else -1
         for n, r in zip(aints, res["attri"][0]):
             model["attr_int"][n] = r if r != 99 else -1
+        model["initial"] = res["initial"] if res["initial"] != 99 else -1
         model["attr_path"] = res["attri"][1]
         model["from_str_digits"] = res["attri"][2]
         for hs, r in zip(pub_lists, res["pub"]):
@@ -437,12 +439,17 @@ def run(ctx):
                     s = bytes.fromhex(r["s"]).decode()
                     if s != (["off"] + [x.lower() for x in LV])[r["a"]]:
                         bad = "display_filter(%s) = %r" % (r["a"], s)
-                elif k in ("as_log_level", "as_trace_level", "as_log_filter", "as_trace_filter", "current_after", "into_level"):
+                elif k in ("as_log_level", "as_trace_level", "as_log_filter", "as_trace_filter", "current_after", "into_level", "into_option", "from_option"):
                     if r["r"] != r["a"]:
                         bad = "%s(%s) = %s" % (k, r["a"], r["r"])
                 elif k in ("level_into_filter", "from_level"):
                     if r["r"] != r["a"]:
                         bad = "%s(level %s) = filter %s" % (k, r["a"], r["r"])
+                elif k == "current_initial":
+                    if r["r"] != 0:
+                        bad = "LevelFilter::current() before any collector existed = %s, not OFF" % r["r"]
+                    if model is not None and model["initial"] != r["r"]:
+                        disagree.append({"case": ["current_initial"], "impl": r["r"], "model": model["initial"]})
                 elif k == "current_after_nohint":
                     if r["r"] != 5:
                         bad = "current() with an unhinted collector = %s" % r["r"]
